@@ -16,6 +16,7 @@ state); floats; JSON enters as a codec parameter (`body_roundtrip`).
 -/
 import DropshotModel.Extract
 import DropshotProofs.Lemmas.Extract
+import DropshotProofs.Lemmas.ExtractFlat
 
 namespace Dropshot.C09
 open Dropshot Dropshot.Percent Dropshot.Utf8 Dropshot.Extract
@@ -145,6 +146,42 @@ theorem flat_member_from_string (t : STy) (s : Bytes)
 /-- In particular a string member is delivered byte for byte, whatever it looks like
 (`7`, `007`, `3.14`, `true`, …). -/
 theorem flat_string_member (s : Bytes) : deContentField (.scalar .string) s = .ok (.scalar (.str s)) := rfl
+
+/-- **C09 (path clause, flattened structs).**  Flattening is transparent for parts whose
+members are read from strings (string, char, unit-variant enum, `Option` of those): whenever
+the struct with the members written inline receives `v` from a set of variables, the struct
+with the `#[serde(flatten)]`-ed part receives the same `v` - for every struct, every part and
+every variable set. -/
+theorem flat_transparent (outer inner : List (Bytes × FTy)) (vars : VarSet) (v : Val)
+    (hdisj : ∀ f ∈ inner, lookupField outer f.1 = none)
+    (hstr : ∀ f ∈ inner, f.2.strLike = true)
+    (h : mapDe (.struct (outer ++ inner)) vars = .ok v) :
+    mapDeFlat outer inner vars = .ok v :=
+  mapDeFlat_eq_inline outer inner vars v hdisj hstr h
+
+/-- … hence the round trip of `path_roundtrip` carries over: every value of such a struct,
+percent-encoded into the route, reaches the handler unchanged. -/
+theorem flat_path_roundtrip (route : List RSeg) (outer inner : List (Bytes × FTy)) (v : Val)
+    (hdisj : ∀ f ∈ inner, lookupField outer f.1 = none)
+    (hstr : ∀ f ∈ inner, f.2.strLike = true)
+    (hfit : pathFits route (outer ++ inner) = true) (hty : valHasTy v (outer ++ inner) = true)
+    (hsafe : ∀ s ∈ segsOf route (valsOf v), Safe s) :
+    extractPathFlat outer inner route (encodePath route (valsOf v)) = .ok v := by
+  have hne : ∀ s ∈ segsOf route (valsOf v), s ≠ [] := fun s hs => (hsafe s hs).2.2.2.1
+  have h := mapDe_varsOf route (outer ++ inner) v hfit hty hne
+  simp [extractPathFlat, lookupVars_encoded route _ hsafe,
+    flat_transparent outer inner _ v hdisj hstr h]
+
+/-- Non-vacuity: `/f/{id}/{name}/{kind}` into `struct { id: u8, #[flatten] { name: String, kind: enum } }`
+with `name = "007"`. -/
+example :
+    let route : List RSeg := [.lit [102], .var [105, 100], .var [110], .var [107]]
+    let outer : List (Bytes × FTy) := [([105, 100], .scalar (.uint 8))]
+    let inner : List (Bytes × FTy) := [([110], .scalar .string), ([107], .scalar (.enum [[82]]))]
+    let v : Val := [([105, 100], .scalar (.nat 255)), ([110], .scalar (.str [48, 48, 55])),
+      ([107], .scalar (.variant [82]))]
+    (∀ f ∈ inner, lookupField outer f.1 = none) ∧ (∀ f ∈ inner, f.2.strLike = true) ∧
+      pathFits route (outer ++ inner) = true ∧ valHasTy v (outer ++ inner) = true := by decide
 
 /-- Non-vacuity / witness: `struct { id: u32, #[flatten] { name: String, kind: Color } }` fed
 `id=7, kind=Red, name=007` yields the same value as the inline struct. -/
